@@ -163,6 +163,9 @@ func (r *runner) note(o *Outcome) {
 	if o.Sim.Hang {
 		r.res.Probes["hang-observed"]++
 	}
+	if o.Sim.Abandoned {
+		r.res.Probes["run-abandoned-as-too-slow-inconclusive"]++
+	}
 	if len(o.Sim.Panics) > 0 {
 		r.res.Probes["panic-observed"]++
 	}
